@@ -46,8 +46,13 @@ FIELDS = {
 }
 
 
+SESSION_FIELDS = {"toggle": ("e", "g", "m"), "setargs": ("e", "g", "m", "args"),
+                  "resched": ("e", "times", "start", "nd"), "restart": ("e",)}
+
+
 def strip(trace: dict, prop: str) -> dict:
-    sel = FIELDS[prop]
+    sel = dict(FIELDS[prop])
+    sel.update(SESSION_FIELDS)
     evs = []
     for ev in trace["events"]:
         keep = sel.get(ev["e"])
@@ -164,9 +169,83 @@ def validate(ctx, traces: list, label: str, prop: str | None = None, known=None)
     return out
 
 
+def _session_job(kw):
+    return runner.record_session(**kw)
+
+
+def random_session(rng, cfg: dict, nruns: int = 3) -> list:
+    """Operations of a session on `cfg`: runs separated by reconfigurations and by
+    operations that must have no effect (repr, iteration, describe, dir)."""
+    where = [(g + 1, m + 1) for g, grp in enumerate(cfg["pipe"]) for m in range(len(grp))]
+    ops = []
+    if rng.random() < 0.3:
+        ops.append(["peek", rng.choice(["repr", "iter", "describe", "dir"])])
+    ops.append(["run"])
+    for _ in range(nruns - 1):
+        for _ in range(rng.randint(1, 4)):
+            r = rng.random()
+            if r < 0.45 and where:
+                g, m = rng.choice(where)
+                ops.append(["toggle", g, m, rng.choice(["attr", "getattr", "get_model"])])
+            elif r < 0.6 and where:
+                g, m = rng.choice(where)
+                ops.append(["setargs", g, m, rng.choice(["zz", "a", "tag2"])])
+            elif r < 0.8:
+                n = rng.randint(1, 4)
+                pts = sorted(rng.sample(range(1, 40), n))
+                ops.append(["resched", pts, rng.choice([0, 0, -3, pts[0] - 1]), rng.random() < 0.5])
+            else:
+                ops.append(["peek", rng.choice(["repr", "iter", "describe", "dir"])])
+        ops.append(["run"])
+    return ops
+
+
+def toggles_between(a: dict, b: dict) -> list:
+    """Reconfiguration that turns configuration `a` into `b` (same models, different flags / schedule)."""
+    ops = []
+    for g, (ga, gb) in enumerate(zip(a["pipe"], b["pipe"])):
+        for m, (ma, mb) in enumerate(zip(ga, gb)):
+            if ma["enabled"] != mb["enabled"]:
+                ops.append(["toggle", g + 1, m + 1, ["attr", "getattr", "get_model"][(g + m) % 3]])
+    if (a["times"], a["start"], a["nd"]) != (b["times"], b["start"], b["nd"]):
+        ops.append(["resched", b["times"], b["start"], b["nd"]])
+    return ops
+
+
+def same_models(a: dict, b: dict) -> bool:
+    return [[m["name"] for m in g] for g in a["pipe"]] == [[m["name"] for m in g] for g in b["pipe"]]
+
+
+def sessions(ctx, family_cases: list, nrandom: int, kinds=("obs", "set", "add"), **kw) -> list:
+    """Record sessions: (1) every ordered pair of family configurations over the same models -
+    run the first, reconfigure into the second, run again, and back; (2) random sessions."""
+    jobs = []
+    for a in family_cases:
+        for b in family_cases:
+            if a is not b and same_models(a, b):
+                ops = [["run"]] + toggles_between(a, b) + [["peek", "iter"], ["run"]] + toggles_between(b, a) + [["run"]]
+                jobs.append(dict(cfg=a, ops=ops, **kw))
+    jobs = jobs[:ctx.pick(150, 2000)]
+    for k in range(nrandom):
+        cfg = random_cfg(ctx.rng, max_models=3, max_steps=4, kinds=kinds)
+        jobs.append(dict(cfg=cfg, ops=random_session(ctx.rng, cfg, ctx.rng.randint(2, 4)),
+                         debug=ctx.rng.random() < 0.2, hier=ctx.rng.random() < 0.5,
+                         construction=ctx.rng.choice(["python", "python", "yaml"])))
+    traces = check.pmap(_session_job, jobs, chunksize=4)
+    ctx.cov["recorded_sessions"] = ctx.cov.get("recorded_sessions", 0) + len(traces)
+    return traces
+
+
 def replay_case(ctx, payload: dict) -> int:
     case = payload["case"]
     meta = case.get("meta", {})
+    if meta.get("session"):
+        tr = runner.record_session(cfg=case["cfg"], ops=meta["session"], construction=meta.get("construction", "python"),
+                                   debug=meta.get("debug", False), hier=meta.get("hier", False),
+                                   kind=meta.get("detector", "ccd"))
+        print(json.dumps(tr["events"], indent=1)[:4000])
+        validate(ctx, [tr], "replay")
+        return ctx.finish()
     kw = {"cfg": case["cfg"], "construction": meta.get("construction", "python"),
           "debug": meta.get("debug", False), "hier": meta.get("hier", False),
           "readout_how": meta.get("readout", "list"), "yaml_order": meta.get("yaml_order", "canonical"),
@@ -204,6 +283,7 @@ def random_cfg(rng, max_models: int = 4, max_steps: int = 6, kinds=("obs", "set"
     pipe = []
     uid = 0
     buckets_by_kind = {"set": ["photon", "pixel", "signal", "scene", "data"],
+                       "cset": ["photon", "pixel", "signal", "signal", "scene", "data"],
                        "add": ["photon", "charge", "pixel", "signal"], "padd": ["charge"]}
     npadd = 0
     for k in range(10):
@@ -224,7 +304,8 @@ def random_cfg(rng, max_models: int = 4, max_steps: int = 6, kinds=("obs", "set"
                                "mask": rng.randint(0, (1 << min(n, 20)) - 1) if rng.random() < 0.5 else -1})
         pipe.append(models)
     if rng.random() < p_img:
-        pipe[8].append({"name": "imgw", "enabled": True, "args": "i", "kind": "set", "b": "image",
+        pipe[8].append({"name": "imgw", "enabled": True, "args": "i",
+                        "kind": "cset" if "cset" in kinds and rng.random() < 0.5 else "set", "b": "image",
                         "base": 60, "mask": -1})
     prior = {b: -1 for b in ("photon", "charge", "pixel", "signal", "image", "scene", "data")}
     if rng.random() < prior_p:
